@@ -757,6 +757,17 @@ func (g *gen) genCheckpointConc() {
 	g.cfg.FMV = 0
 	g.cfg.ConcRangeKeys = g.r.IntN(3) == 0
 	perW := 4 + g.r.IntN(10)
+	// In half of the plans the ingesting client has a key region of its own:
+	// its tables then do not overlap the memtable and go straight into the
+	// LSM (no WAL record), the case in which a checkpoint's version and its
+	// copied WAL must agree on what came first.
+	all := g.pfx
+	wpfx, ipfx := all, all
+	if g.r.IntN(2) == 0 && len(all) >= 4 {
+		wpfx, ipfx = all[:len(all)/2], all[len(all)/2:]
+	}
+	g.pfx = wpfx
+	defer func() { g.pfx = all }()
 	for w := 0; w < writers; w++ {
 		for i := 0; i < perW; i++ {
 			n := 1 + g.r.IntN(3)
@@ -779,6 +790,7 @@ func (g *gen) genCheckpointConc() {
 		}
 	}
 	ic := writers + 1
+	g.pfx = ipfx
 	for i := 2 + g.r.IntN(5); i > 0; i-- {
 		o := g.ingestOp(false, false)
 		o.C = ic
